@@ -484,6 +484,69 @@ func runInterleave(c *Ctx) {
 		}
 		checkInterleave(c, ic)
 	}
+	if hookPresent() {
+		nameRefHooked(c)
+	}
+}
+
+// nameRefHooked: the schedule of Props.not_context_canonical_interleaved forced on two REAL
+// LookupByValue goroutines (thread 0: {f:x=int64, g:x}, thread 1: x=<other>):
+// A probe · int64 · NameDef x | B probe · <other> · NameDef x | A NameRef x · record · store.
+// The model says thread 0 then gets {f:x=int64, g:x=<other>}; the real code must agree with the
+// model (T2), and the disagreement with what was written is the known finding.
+func nameRefHooked(c *Ctx) {
+	for _, other := range []int{zed.IDString, zed.IDFloat64, zed.IDIP} {
+		x := func(id int) *TSpec { return &TSpec{Kind: "named", Name: "x", Elems: []*TSpec{Prim(id)}} }
+		a := &TSpec{Kind: "record", Fields: []TField{{Name: "f", Type: x(zed.IDInt64)}, {Name: "g", Type: x(zed.IDInt64)}}}
+		ic := &ilCase{Check: "interleave-nameref", TVs: []string{hex.EncodeToString(a.Wire(WireOpts{})), hex.EncodeToString(x(other).Wire(WireOpts{}))},
+			Sched: []int{0, 0, 0, 1, 1, 1, 0, 0, 0, 1}}
+		c.Eval(fmt.Sprintf("interleave:nameref:%d", other))
+		ans := c.Model().Call(fmt.Sprintf("(C05 sched (%s) (0 0 0 1 1 1 0 0 0 1))", strings.Join(ic.TVs, " ")))
+		c.Res.ModelCases++
+		parts := strings.Split(ans, "|")
+		mth := strings.Split(parts[0], ";")
+		if len(parts) != 2 || len(mth) != 2 {
+			c.Fail("correspondence", "C05:interleave:model", "model answer not understood: "+ans, ic)
+			return
+		}
+		var tvs [][]byte
+		var progs [][]string
+		var want []string
+		for i, m := range mth {
+			f := strings.Split(m, ",")
+			if len(f) != 4 {
+				c.Fail("correspondence", "C05:interleave:model", "model answer not understood: "+ans, ic)
+				return
+			}
+			tv, _ := hex.DecodeString(ic.TVs[i])
+			tvs = append(tvs, tv)
+			progs = append(progs, strings.Split(f[2], " "))
+			want = append(want, f[3])
+		}
+		res, _, zc, err := runHooked(tvs, progs, ic.Sched)
+		if err != nil {
+			c.Fail("correspondence", "C05:interleave:hooked:sections", err.Error(), ic)
+			return
+		}
+		for i := range tvs {
+			got := "nil"
+			if res[i] != nil {
+				got = hex.EncodeToString(zed.EncodeTypeValue(res[i]))
+			}
+			if got != want[i] {
+				c.Fail("correspondence", "C05:interleave:hooked:result", fmt.Sprintf("NameRef schedule, thread %d: real goroutine %s, model %s", i, got, want[i]), ic)
+				return
+			}
+		}
+		if got := strings.Join(contextTVs(zc), " "); got != parts[1] {
+			c.Fail("correspondence", "C05:interleave:hooked:context", fmt.Sprintf("NameRef schedule: types by id real [%s] model [%s]", got, parts[1]), ic)
+			return
+		}
+		c.Stat("interleave:nameref:hooked")
+		if res[0] != nil && DescrType(res[0]) != a.Descr() {
+			c.Fail("oracle", "C05:nameref:rebinding", fmt.Sprintf("two real LookupByValue goroutines forced through the schedule A:NameDef x=int64 · B:NameDef x=%s · A:NameRef x: A asked for %s and got %s", DescrType(res[1]), a.Descr(), DescrType(res[0])), ic)
+		}
+	}
 }
 
 func replayInterleave(c *Ctx) {
